@@ -509,6 +509,18 @@ pub fn gen_al(ch: &mut Choices, max_rules: usize) -> AL {
         } else {
             vec![]
         };
+        // 1/10: an unescaped blank inside the expression (everything before the last blank of the
+        // line is the expression); never last (that blank would separate expression and name),
+        // first only after a <..> prefix (a line cannot begin with a blank)
+        if ch.chance(1, 10) {
+            if let Re::Cat(v) = &mut re {
+                if v.len() >= 2 {
+                    let lo = if states.is_empty() { 1 } else { 0 };
+                    let k = lo + ch.pick(v.len() - lo);
+                    v.insert(k, Re::Lit { c: if ch.chance(1, 4) { '\t' } else { ' ' }, esc: false });
+                }
+            }
+        }
         let target = if ns > 0 && ch.chance(1, 3) {
             Some((
                 ch.pick(ns + 1),
